@@ -224,6 +224,40 @@ fn run_wcag_pairs<T: Sc>(ctx: &Ctx, total: &mut Collector, yrow: &[f64; 3]) {
         total.add(&sub, l.states, l.trans, l.traces, l.nontrivial);
         total.exhaustive(&sub, true, "all 256 × 256 ordered pairs of 8-bit grey levels v/255 as SrgbLuma, Srgb(v,v,v), LinLuma, LinSrgb(v,v,v), through Wcag21RelativeContrast (luminance, ratio, 5 predicates, both orders) and the deprecated RelativeContrast");
     }
+    // linear luminance grid k/1000: the ratio (L1 + 0.05) / (L2 + 0.05) of many of these pairs is bit-exactly
+    // 3, 4.5 or 7 (e.g. 0.202 vs 0.006), the only inputs on which `>=` and `>` of a predicate differ
+    let sub = format!("wcag-thresholds/{}", T::NAME);
+    if ctx.wants(&sub) {
+        let z = T::from64(0.0);
+        let n = 1001usize;
+        let lv: Vec<T> = (0..n).map(|k| T::from64(k as f64 / 1000.0)).collect();
+        let (lv_r, sub_r) = (&lv, &sub);
+        let exact = std::sync::atomic::AtomicU64::new(0);
+        let exact_r = &exact;
+        let (c, l) = par_pairs(n, |i, j, c, l| {
+            let (x, y) = ([lv_r[i], z, z], [lv_r[j], z, z]);
+            // cheap pre-filter in f64 (within 1e-5 of a threshold): only those pairs go through the full check
+            let r = { let (a, b) = (lv_r[i].to64() + 0.05, lv_r[j].to64() + 0.05); if a > b { a / b } else { b / a } };
+            if oracle::THRESHOLDS.iter().any(|(_, t)| (r - t).abs() <= 1e-5 * t) {
+                let o = T::wcag(WType::LinLuma, x, y);
+                if oracle::THRESHOLDS.iter().any(|(_, t)| o.r[0].to64() == *t) {
+                    exact_r.fetch_add(1, std::sync::atomic::Ordering::Relaxed);
+                }
+                check_wcag::<T>(sub_r, WType::LinLuma, x, y, yrow, c, l, ctx.seed);
+                check_wcag_old::<T>(sub_r, OType::from_name(WType::LinLuma.name()).unwrap(), x, y, yrow, c, l, ctx.seed);
+                l.nontrivial += 1;
+            }
+            l.states += if i == j { 1 } else { 2 };
+        });
+        total.merge(c);
+        total.add(&sub, l.states, l.trans, l.traces, l.nontrivial);
+        let hits = exact.load(std::sync::atomic::Ordering::Relaxed);
+        total.note(&format!("{sub}/pairs-with-bit-exact-threshold-ratio"), json!(hits));
+        if hits < 20 {
+            total.warn(format!("{sub}: only {hits} pairs with a bit-exact threshold ratio (expected dozens): the exact-boundary case may be unexplored"));
+        }
+        total.exhaustive(&sub, true, "all 1001 x 1001 ordered pairs of LinLuma(k/1000); the pairs whose ratio lies within 1e-5 of 3, 4.5 or 7 (incl. every pair whose computed ratio is bit-exactly a threshold; their number is in the notes) go through Wcag21RelativeContrast and the deprecated RelativeContrast: each predicate equals (ratio >= threshold) for the ratio the library itself returns");
+    }
     // colour grid
     let sub = format!("wcag-grid/{}", T::NAME);
     if ctx.wants(&sub) {
